@@ -22,19 +22,19 @@ def _spec_strings(maxlen):
 def plan(tier, seed):
     specs = []
     # exhaustive alphabet space, split in 16 slices (quick and thorough: all strings of length <= 5; thorough adds 6)
-    maxlen = 5 if tier == "quick" else 6
+    maxlen = 6 if tier == "quick" else 8
     for i in range(16):
         specs.append(("alphabet", maxlen, i, 16))
-    nrand = 2000 if tier == "quick" else 50000
+    nrand = 30000 if tier == "quick" else 300000
     for i in range(16):
         specs.append(("roundtrip", nrand // 16, i))
     for i in range(4):
         specs.append(("multi", (200 if tier == "quick" else 2000) // 4, i))
-    nbin = 160 if tier == "quick" else 1600
+    nbin = 1000 if tier == "quick" else 8000
     for i in range(16):
         specs.append(("binary", nbin // 16, i))
     for i in range(8):
-        specs.append(("binary-multi", (80 if tier == "quick" else 800) // 8, i))
+        specs.append(("binary-multi", (400 if tier == "quick" else 3000) // 8, i))
     return specs
 
 
@@ -300,7 +300,7 @@ def main(tier, seed):
     run = core.run_shards(__name__, PROP, tier, seed, paths, plan(tier, seed))
     return core.finish(
         run, "exploration",
-        rule=("cases = (a) every string of length <= 5 (thorough: 6) over {a, space, ',', '=', backslash} passed as -G and "
+        rule=("cases = (a) every string of length <= 6 (thorough: 8) over {a, space, ',', '=', backslash} passed as -G and "
               "compared with the reference parser; (b) random Unicode path/pair lists rendered with escaping and padding; "
               "(c) 1-4 repeated -G options; (d) real binary runs with a capturing generator. distinct_nontrivial = distinct "
               "non-empty specification strings / argv vectors"),
@@ -310,5 +310,5 @@ def main(tier, seed):
                      "only ASCII padding is generated",
                      "components ending in a backslash are not generated (the syntax cannot express them)"],
         exhaustive=True,
-        extra_coverage={"exhaustive_space": "all strings of length <= %d over a 5-letter alphabet" % (5 if tier == "quick" else 6)},
+        extra_coverage={"exhaustive_space": "all strings of length <= %d over a 5-letter alphabet" % (6 if tier == "quick" else 8)},
     )
